@@ -201,6 +201,17 @@ def mpe_case(ctx, inst, ug=None, cover=None, suite="K5.mpe", brute=True):
             what += (f" — the slack inequality holds on every edge, but the check compares the unscaled error: edge {e} has "
                      f"|f - sum| = {show(errs[e])}, scale {qstr(ug.sc[e])}, slacks through it {show(have.get(e, Fraction(0)))}")
         ctx.violation(what, view, site=f"{cls}.is_valid_solution")
+    # --- optimality against a planted exact solution (any weight type): total slack 0 is attainable with these routes
+    pl = inst.get("planted")
+    if pl and len(pl["routes"]) <= k_model and given is None and phi == 1:
+        perr = ug.abs_errors([list(r) for r in pl["routes"]], [frac(x) for x in pl["weights"]])
+        if all(perr[e] == 0 for e in ug.basic):
+            ctx.rep.cov["oracle_evaluations"] += 1
+            feats.append("planted exact solution")
+            if total > (0 if wint else TOL):
+                ctx.violation(f"{cls}: returned total slack {show(total)} although the {len(pl['routes'])} planted {key} with weights "
+                              f"{pl['weights']} explain every value exactly (total slack 0)", dict(view, planted=pl),
+                              site=f"{cls}.optimality")
     # --- optimality (int weights)
     opt = None
     if brute and wint and all(ug.f[e].denominator == 1 for e in ug.basic):
@@ -310,6 +321,33 @@ def overshoot_instance(rng, cls):
             "starts": [], "ends": [], "scaling": [], "options": {}, "flow": [[u, v, str(q)] for (u, v), q in fl.items()], "k": 2}
 
 
+def deep_tail_instance(rng):
+    """float weights: a light walk (weight 1/2) goes r >= 4 times round the 2-cycle a<->b and then down a tail of three edges,
+    where a heavy route joins; the repetition cap of the cycle edges (largest value reachable) comes from the far end of the
+    tail only. The planted walks explain every value exactly, so the optimum is total slack 0."""
+    r = rng.randint(4, 6)
+    w = Fraction(1, 2)
+    heavy = Fraction(r) - w + rng.choice([0, 1, 2])
+    tail = ["c", "d"] + (["e"] if rng.random() < 0.5 else [])
+    light = ["s"] + ["a", "b"] * r + tail + ["t"]
+    hv = ["s2", tail[-1], "t"]
+    fl = {}
+    for route, x in ((light, w), (hv, heavy)):
+        for e in zip(route[:-1], route[1:]):
+            fl[e] = fl.get(e, Fraction(0)) + x
+    edges = list(fl); rng.shuffle(edges)
+    nodes = sorted({x for e in edges for x in e}); rng.shuffle(nodes)
+    return {"cls": "kMinPathErrorCycles", "nodes": nodes, "edges": [list(e) for e in edges], "origin": "edge",
+            "weight_type": "float", "ignore": [], "starts": [], "ends": [], "scaling": [], "options": {},
+            "flow": [[u, v, qstr(fl[(u, v)])] for (u, v) in edges], "k": 2,
+            "planted": {"routes": [light, hv], "weights": [qstr(w), qstr(heavy)]}}
+
+
+def run_deep_tail(ctx, rng, n, suite="K5.mpe_deep_tail"):
+    for _ in range(n):
+        mpe_case(ctx, deep_tail_instance(rng), suite=suite, brute=False)
+
+
 def run_overshoot(ctx, rng, n, suite="K5.mpe_overshoot"):
     for _ in range(n):
         inst = overshoot_instance(rng, "kMinPathErrorCycles")
@@ -334,6 +372,7 @@ def run(ctx):
                 sampled = True
                 ctx.rep.sample({"instance": r[0], "last_run": {a: (qstr(b) if isinstance(b, Fraction) else b) for a, b in r[1].items()}})
     run_overshoot(ctx, rng, ctx.n(16, 80))
+    run_deep_tail(ctx, rng, ctx.n(4, 30))
 
 
 STRIP = ("solution", "brute_force_optimum", "cover", "has_factor_lt1", "has_factor_gt1")
@@ -343,7 +382,12 @@ def finding_case(ctx, inp):
     mpe_case(ctx, {a: b for a, b in inp.items() if a not in STRIP}, suite="known-findings")
 
 
+def search_deep(ctx):
+    run_deep_tail(ctx, random.Random(808), 12, suite="search.mpe_deep_tail")
+
+
 def search(ctx):
+    search_deep(ctx)
     rng = random.Random(808)
     for cls in ["kMinPathError", "kMinPathErrorCycles"]:
         for it in range(60):
